@@ -37,6 +37,8 @@ def check(c: Check):
     clause_de(c)
     clause_f(c)
     clause_g(c)
+    clause_h(c)
+    clause_i(c)
     from .common import sweep_records
     sweep_records(c, 'C02-rec', ['exactly_lib.processing', 'exactly_lib.common.exit_value', 'exactly_lib.common.process_result_reporter', 'exactly_lib.test_case.result'], floor=12)
 
@@ -548,3 +550,70 @@ def clause_g(c: Check):
                     total += k
         c.floor('C02-g', 'tuple records in the repository (thorough)', classes, 80)
         c.note('thorough: %d tuple records, %d properties judged' % (classes, total))
+
+
+# ---------------------------------------------------------------- h
+def clause_h(c: Check):
+    """EXC: a preprocessor that cannot be started or run is PRE_PROCESS_ERROR (65), not INTERNAL_ERROR: the process
+    start of the preprocessor is enclosed by handlers that cover OSError (not found, not executable, a directory ...)
+    and ValueError and convert to ProcessError"""
+    from .C18 import handlers_around, _covers
+    ix = c.ix
+    f = ix.func('exactly_lib.processing.preprocessor:PreprocessorViaExternalProgram.apply')
+    m = f.module
+    pe = ix.cls('exactly_lib.processing.test_case_processing:ProcessError')
+    n = 0
+    for node in ast.walk(f.node):
+        if isinstance(node, ast.Call):
+            d = ix.callee(m, f, node)
+            if isinstance(d, External) and d.dotted.startswith('subprocess.'):
+                n += 1
+                handled, converts = handlers_around(ix, m, f, node)
+                ok = _covers(ix, handled, {'builtins.OSError', 'builtins.ValueError'}) and converts
+                c.expect(ok, 'C02-h', 'preprocessor/start-errors-converted',
+                         'the start of the preprocessor is covered by handlers for %s only: a preprocessor that exists but '
+                         'cannot be executed (PermissionError, a directory) escapes and is reported as INTERNAL_ERROR '
+                         'instead of PRE_PROCESS_ERROR' % sorted(h.split('.')[-1] for h in handled),
+                         '%s:%d' % (m.relpath, node.lineno))
+    c.floor('C02-h', 'process starts of the preprocessor', n, 1)
+    # the converting handlers raise ProcessError
+    raises = [x for x in ast.walk(f.node) if isinstance(x, ast.Raise) and isinstance(x.exc, ast.Call)]
+    ok = bool(raises) and all(ix.callee(m, f, x.exc) == pe for x in raises)
+    c.expect(ok, 'C02-h', 'preprocessor/raises-process-error', 'the preprocessor raises something else than ProcessError', f.loc())
+
+
+# ---------------------------------------------------------------- i
+def clause_i(c: Check):
+    """DT: a command line option value that is to be split into words (--actor, --preprocessor) and holds no word -
+    empty or white space only - is invalid usage (exit 64): shlex_split evaluated on the blank values raises
+    ArgumentParsingError on every path; and the lexer's ValueError (unbalanced quote) is converted to it"""
+    ix, fo = c.ix, c.fo
+    f = ix.func('exactly_lib.cli.program_modes.common.shlex_arg_parse:shlex_split')
+    ape = ix.cls('exactly_lib.util.argument_parsing_utils:ArgumentParsingError')
+    names = [p.arg for p in f.positional_params()]
+    c.require(len(names) == 2, 'C02-i: shlex_split does not take (component, value)')
+
+    class H(Hooks):
+        def may_raise(self, callee_def, node, st):
+            if isinstance(callee_def, External) and callee_def.dotted == 'shlex.split':
+                return [External('builtins.ValueError')]
+            return []
+
+    for label, text in (('empty', ''), ('space', ' '), ('tab-and-space', '\t ')):
+        outs = set()
+        for p in util.func_paths(ix, fo, f, H(), args={names[0]: K('--opt'), names[1]: K(text)}):
+            if p.kind == 'raise' and isinstance(p.val, Exc) and p.val.cls == ape:
+                outs.add('invalid-usage')
+            elif p.kind == 'raise':
+                outs.add('raises ' + util.describe(p.val))
+            else:
+                outs.add('accepted: ' + util.describe(p.val))
+        c.expect(outs == {'invalid-usage'}, 'C02-i', 'shlex_split/blank/' + label,
+                 'an option value that is %s is %s (expected invalid usage, exit 64)' % (
+                     {'empty': 'empty', 'space': 'a space', 'tab-and-space': 'white space only'}[label], sorted(outs)), f.loc())
+    outs = set()
+    for p in util.func_paths(ix, fo, f, H(), args={names[0]: K('--opt'), names[1]: K('prog "unbalanced')}):
+        if p.kind == 'raise':
+            outs.add('invalid-usage' if isinstance(p.val, Exc) and p.val.cls == ape else 'raises ' + util.describe(p.val))
+    c.expect(outs == {'invalid-usage'}, 'C02-i', 'shlex_split/lexer-error-converted',
+             'an unbalanced quote in an option value ends as %s' % sorted(outs), f.loc())
